@@ -242,6 +242,9 @@ class Interp:
         self.entropy: list = []            # (what, site) ambient/entropy sources touched
         self.sym_by_uid: dict = {}
         self.decided: dict = {}
+        self.class_attr_cache: dict = {}
+        self._model_extra: dict = {}
+        self.shared_mutables: list = []
 
     # -- choices -----------------------------------------------------------
     def choose(self, what: str) -> bool:
@@ -699,13 +702,25 @@ class Interp:
             if isinstance(v, ast.Constant):
                 out = out + Tmpl.lit(str(v.value))
             else:
+                spec_txt = ""
                 if v.format_spec is not None:
                     spec = self.eval(v.format_spec, env)
-                    if not (isinstance(spec, Tmpl) and spec.is_literal() and spec.text() == ""):
-                        raise Unsupported(f"format spec at {env.mod.site(v)}")
+                    if not (isinstance(spec, Tmpl) and spec.is_literal()):
+                        raise Unsupported(f"computed format spec at {env.mod.site(v)}")
+                    spec_txt = spec.text()
                 val = self.eval(v.value, env)
                 how = {-1: "str", 115: "str", 114: "repr", 97: "ascii"}[v.conversion]
-                out = out + self.render(val, how, env.mod.site(v))
+                if spec_txt:
+                    if isinstance(val, Sym):
+                        out = out + Tmpl((Hole(val, f"format:{spec_txt}", env.mod.site(v)),))
+                    elif isinstance(val, (int, float)) and not isinstance(val, bool):
+                        out = out + Tmpl.lit(format(val, spec_txt))
+                    elif isinstance(val, Tmpl) and val.is_literal():
+                        out = out + Tmpl.lit(format(val.text(), spec_txt))
+                    else:
+                        raise Unsupported(f"format spec {spec_txt!r} on {type(val).__name__} at {env.mod.site(v)}")
+                else:
+                    out = out + self.render(val, how, env.mod.site(v))
         return out
 
     def ev_FormattedValue(self, n, env):
@@ -742,6 +757,8 @@ class Interp:
             return BoundMethod(o, attr)
         if isinstance(o, ExtVal):
             return ExtVal(o.module, (o.attr + "." if o.attr else "") + attr)
+        if isinstance(o, Builtin) and o.name in ("str", "int", "float", "list", "tuple", "dict", "set"):
+            return Builtin(f"{o.name}.{attr}")
         if isinstance(o, ModuleVal):
             m = self.src.by_dotted(o.name)
             return self.global_lookup(m, attr)
@@ -790,11 +807,16 @@ class Interp:
                     if decos and any(d for d in decos):
                         raise Unsupported(f"decorated method {c.name}.{attr} ({decos}) ({site})")
                     return FuncVal(c.mod, st, inst, c)
-                if isinstance(st, ast.Assign) and any(isinstance(t, ast.Name) and t.id == attr for t in st.targets):
-                    return self.eval(st.value, Env(c.mod, {}))
-                if isinstance(st, ast.AnnAssign) and isinstance(st.target, ast.Name) and st.target.id == attr \
-                        and st.value is not None:
-                    return self.eval(st.value, Env(c.mod, {}))
+                if (isinstance(st, ast.Assign) and any(isinstance(t, ast.Name) and t.id == attr for t in st.targets)) or (
+                        isinstance(st, ast.AnnAssign) and isinstance(st.target, ast.Name) and st.target.id == attr
+                        and st.value is not None):
+                    # a class-level object is ONE object shared by all instances: evaluate once per run
+                    ck = (c.mod.rel, c.name, attr)
+                    if ck not in self.class_attr_cache:
+                        self.class_attr_cache[ck] = self.eval(st.value, Env(c.mod, {}))
+                        if isinstance(self.class_attr_cache[ck], (ASet, AList, ADict)):
+                            self.shared_mutables.append((f"{c.mod.rel}:{c.name}.{attr}", c.mod.site(st)))
+                    return self.class_attr_cache[ck]
             nxt = None
             for b in (c.node.bases if c.node is not None else []):
                 d = (dotted(b) or "").split(".")[-1]
@@ -1128,6 +1150,13 @@ class Interp:
             return self.dict_key(container, x, site) in container.items
         if isinstance(container, Tmpl) and isinstance(x, Tmpl) and container.is_literal() and x.is_literal():
             return x.text() in container.text()
+        if isinstance(container, Tmpl) and all(isinstance(p_, str) or (p_.sym.kind == "ident" and p_.render == "str") for p_ in container.parts):
+            # substring test on text assembled from identifier names: decided on the placeholder names (the shape
+            # family contains names that are substrings of one another)
+            text = "".join(p_ if isinstance(p_, str) else p_.sym.name for p_ in container.parts)
+            needle = x.name if isinstance(x, Sym) and x.kind == "ident" else (x.text() if isinstance(x, Tmpl) and x.is_literal() else None)
+            if needle is not None:
+                return needle in text
         raise Unsupported(f"membership in {type(container).__name__} at {site}")
 
     def truthy(self, v, what=""):
@@ -1278,36 +1307,64 @@ class Interp:
         return o
 
     # pydantic v1 model construction ----------------------------------------
+    VALUE_ALTERING_CONFIG = ("anystr_strip_whitespace", "anystr_lower", "anystr_upper", "min_anystr_length", "max_anystr_length")
+
     def model_fields(self, cv: ClassVal):
         fields = []
-        smart = False
+        cfg = {}
+        validators, root_validators = [], []
         for st in cv.node.body:
             if isinstance(st, ast.AnnAssign) and isinstance(st.target, ast.Name):
                 fields.append((st.target.id, st.annotation, st.value, st))
             elif isinstance(st, ast.ClassDef) and st.name == "Config":
                 for s2 in st.body:
-                    if isinstance(s2, ast.Assign) and any(isinstance(t, ast.Name) and t.id == "smart_union" for t in s2.targets):
-                        smart = isinstance(s2.value, ast.Constant) and s2.value.value is True
+                    if isinstance(s2, ast.Assign):
+                        for t in s2.targets:
+                            if isinstance(t, ast.Name):
+                                cfg[t.id] = s2.value.value if isinstance(s2.value, ast.Constant) else norm(s2.value)
             elif isinstance(st, ast.FunctionDef):
-                decos = [dotted(d.func if isinstance(d, ast.Call) else d) for d in st.decorator_list]
-                if any(d in ("validator", "root_validator", "field_validator", "model_validator") for d in decos):
-                    # a validator that returns its value parameter unchanged on every path is the identity
-                    vparam = st.args.args[1].arg if len(st.args.args) > 1 else None
-                    rets = [r for r in ast.walk(st) if isinstance(r, ast.Return)]
-                    ident = vparam is not None and rets and all(isinstance(r.value, ast.Name) and r.value.id == vparam for r in rets)
-                    targets = []
-                    for d in st.decorator_list:
-                        if isinstance(d, ast.Call):
-                            targets += [a.value for a in d.args if isinstance(a, ast.Constant)]
-                    if not ident:
-                        self.pyd_events.append(("validator-rewrite", f"{cv.mod.rel}:{cv.name}.{'/'.join(map(str, targets)) or '*'}",
-                                                cv.mod.site(st), st.name))
-        return fields, smart
+                for d in st.decorator_list:
+                    dn = dotted(d.func if isinstance(d, ast.Call) else d)
+                    if dn in ("validator", "field_validator"):
+                        targets = [a.value for a in d.args if isinstance(a, ast.Constant)] if isinstance(d, ast.Call) else []
+                        kw = {k.arg: getattr(k.value, "value", None) for k in d.keywords} if isinstance(d, ast.Call) else {}
+                        validators.append((st, targets, kw))
+                    elif dn in ("root_validator", "model_validator"):
+                        kw = {k.arg: getattr(k.value, "value", None) for k in d.keywords} if isinstance(d, ast.Call) else {}
+                        root_validators.append((st, kw))
+        self._model_extra[cv.name] = (cfg, validators, root_validators)
+        return fields, cfg.get("smart_union") is True
+
+    def run_validator(self, cv, fn, call_args: dict, what, site):
+        """Abstractly run a pydantic validator; if the domain cannot follow it, record that it may
+        rewrite the value and keep the value unchanged."""
+        params = [a.arg for a in fn.args.args]
+        args = []
+        for i, pn in enumerate(params):
+            if i == 0:
+                args.append(cv)
+            elif pn in call_args:
+                args.append(call_args[pn])
+            elif i == 1:
+                args.append(call_args["__value__"])
+            else:
+                args.append(call_args.get(pn))
+        try:
+            return True, self.call(FuncVal(cv.mod, fn, None, cv), args, {}, site)
+        except Unsupported as e:
+            self.pyd_events.append(("validator-rewrite", f"{cv.mod.rel}:{cv.name}.{what}", cv.mod.site(fn), f"{fn.name} ({str(e)[:80]})"))
+            return False, None
 
     def model_construct(self, cv: ClassVal, args, kwargs, site):
         if args:
             raise Unsupported(f"positional arguments to model {cv.name} at {site}")
         fields, smart = self.model_fields(cv)
+        cfg, validators, root_validators = self._model_extra[cv.name]
+        for rv, kw in root_validators:
+            if kw.get("pre"):
+                ok, res = self.run_validator(cv, rv, {"__value__": ADict(dict(kwargs)), "values": ADict(dict(kwargs))}, "*", site)
+                if ok and isinstance(res, ADict):
+                    kwargs = dict(res.items)
         attrs = {}
         for name, ann, default, st in fields:
             if name in kwargs:
@@ -1320,11 +1377,30 @@ class Interp:
                     v = None
                 else:
                     raise RaiseSig("ValidationError", site, f"{cv.name}.{name} missing")
-            attrs[name] = self.pyd_validate(v, ann, smart, cv, name, st, site)
-        extra = set(kwargs) - {f[0] for f in fields}
-        if extra:
-            # pydantic v1 default Config.extra = ignore
-            pass
+            for vf, targets, kw in validators:
+                if (name in targets or "*" in targets) and kw.get("pre"):
+                    ok, res = self.run_validator(cv, vf, {"__value__": v, "values": ADict(dict(attrs))}, name, site)
+                    if ok:
+                        v = res
+            v = self.pyd_validate(v, ann, smart, cv, name, st, site)
+            for opt in self.VALUE_ALTERING_CONFIG:
+                if cfg.get(opt) and isinstance(v, Sym) and v.kind == "str":
+                    where = f"{cv.mod.rel}:{cv.name}.{name}"
+                    self.pyd_events.append((f"str->{opt}", where, cv.mod.site(st), v.src))
+                    v = Sym("str", v.src, coerced=v.coerced + (("str", opt, where, cv.mod.site(st)),), uid=v.uid)
+            for vf, targets, kw in validators:
+                if (name in targets or "*" in targets) and not kw.get("pre"):
+                    ok, res = self.run_validator(cv, vf, {"__value__": v, "values": ADict(dict(attrs))}, name, site)
+                    if ok:
+                        if not _same_value(res, v):
+                            self.pyd_events.append(("validator-rewrite", f"{cv.mod.rel}:{cv.name}.{name}", cv.mod.site(vf), vf.name))
+                        v = res
+            attrs[name] = v
+        for rv, kw in root_validators:
+            if not kw.get("pre"):
+                ok, res = self.run_validator(cv, rv, {"__value__": ADict(dict(attrs)), "values": ADict(dict(attrs))}, "*", site)
+                if ok and isinstance(res, ADict):
+                    attrs = {k: res.items.get(k, attrs.get(k)) for k in attrs}
         return Obj(cv, attrs)
 
     def pyd_validate(self, v, ann, smart, cv, fname, st, site):
@@ -1360,6 +1436,10 @@ class Interp:
                 return self.pyd_coerce(v, m, smart, cv, fname, st, site)
             except _NoCoerce as e:
                 last_err = e
+            except RaiseSig as e:
+                if e.exc_name != "ValidationError":
+                    raise
+                last_err = e.text
         raise RaiseSig("ValidationError", site, f"{where}: {v!r} matches no member ({last_err})")
 
     def pyd_coerce(self, v, m, smart, cv, fname, st, site, exact_hit=False):
@@ -1401,7 +1481,18 @@ class Interp:
             raise _NoCoerce(nm)
         if nm in ("tuple", "Tuple"):
             if isinstance(v, AList):
-                return AList(list(v.items), "tuple", v.nondet)
+                inner = _subscript_arg(m)
+                items = list(v.items)
+                if inner is not None:
+                    elts = inner.elts if isinstance(inner, ast.Tuple) else [inner]
+                    variadic = len(elts) == 2 and isinstance(elts[1], ast.Constant) and elts[1].value is Ellipsis
+                    if variadic or len(elts) == 1:
+                        items = [self.pyd_validate(x, elts[0], smart, cv, fname, st, site) for x in items]
+                    elif len(elts) == len(items):
+                        items = [self.pyd_validate(x, e_, smart, cv, fname, st, site) for x, e_ in zip(items, elts)]
+                    else:
+                        raise _NoCoerce(nm)
+                return AList(items, "tuple", v.nondet)
             raise _NoCoerce(nm)
         if nm in ("list", "List"):
             if isinstance(v, AList):
@@ -1416,6 +1507,9 @@ class Interp:
         # a class: model or enum
         target = None
         mm, node = self.src.resolve_name(cv.mod, nm)
+        if isinstance(node, ast.Assign) and isinstance(node.value, (ast.Subscript, ast.BinOp, ast.Name, ast.Attribute)):
+            # a type alias: validate against what it stands for
+            return self.pyd_validate(v, node.value, smart, cv, fname, st, site)
         if isinstance(node, ast.ClassDef):
             target = self.class_val(mm, node)
         if target is None:
@@ -1432,6 +1526,8 @@ class Interp:
 
     # builtins --------------------------------------------------------------
     def builtin(self, name, args, kwargs, site):
+        if "." in name and args:          # unbound method of a builtin type: str.lower(x) == x.lower()
+            return self.method(args[0], name.split(".", 1)[1], args[1:], kwargs, site)
         if name == "str":
             if not args:
                 return Tmpl()
@@ -1460,7 +1556,12 @@ class Interp:
             items = v.items if isinstance(v, (AList, ASet)) else self.iterate(v, site)
             items = [x.value if isinstance(x, _Tagged) else x for x in items]
             keyf = kwargs.get("key")
-            kvals = [self.apply(keyf, [x], {}, site) for x in items] if keyf is not None else list(items)
+            from_set = isinstance(v, ASet) or (isinstance(v, AList) and v.nondet)
+            try:
+                kvals = [self.apply(keyf, [x], {}, site) for x in items] if keyf is not None else list(items)
+            except Unsupported as e:
+                # a sort key the domain cannot follow: the resulting order is undetermined
+                kvals = [Sym("str", f"sortkey({_describe(x)}): {str(e)[:60]}") for x in items]
 
             def concrete(k):
                 if isinstance(k, Sym) and k.kind == "ident":
@@ -1476,7 +1577,9 @@ class Interp:
             rev = bool(kwargs.get("reverse"))
             if all(k is not None for k in keys) and len({k[0] for k in keys}) <= 1:
                 order = sorted(range(len(items)), key=lambda i: keys[i], reverse=rev)
-                return AList([items[i] for i in order], "list")
+                ties = len(set(keys)) < len(keys)
+                # equal keys keep their input order: for a set that is its (hash-seed dependent) iteration order
+                return AList([items[i] for i in order], "list", (site,) if (ties and from_set) else ())
             if len(items) > 4:
                 raise Unsupported(f"sorted() over {len(items)} values whose order depends on literal content at {site}")
             # order depends on opaque literal content: fork on each needed comparison
@@ -1646,6 +1749,9 @@ class Interp:
                 return ASet([x for x in recv.items if _member(x, other)])
             if name == "copy":
                 return ASet(list(recv.items))
+            if name == "clear":
+                del recv.items[:]
+                return None
             if name == "discard":
                 recv.items[:] = [x for x in recv.items if not self.equal(x, args[0], site)]
                 return None
@@ -1662,6 +1768,9 @@ class Interp:
                 return None
             if name == "copy":
                 return AList(list(recv.items), recv.pytype, recv.nondet)
+            if name == "clear" and recv.pytype == "list":
+                del recv.items[:]
+                return None
             if name == "index":
                 for i, x in enumerate(recv.items):
                     if self.equal(x, args[0], site):
@@ -1674,6 +1783,9 @@ class Interp:
             if name == "get":
                 k = self.dict_key(recv, args[0], site)
                 return recv.items.get(k, args[1] if len(args) > 1 else None)
+            if name == "clear":
+                recv.items.clear()
+                return None
             if name == "setdefault":
                 k = self.dict_key(recv, args[0], site)
                 return recv.items.setdefault(k, args[1] if len(args) > 1 else None)
@@ -1685,6 +1797,8 @@ class Interp:
                 return AList(list(recv.items.values()))
             raise Unsupported(f"dict.{name} at {site}")
         if isinstance(recv, Sym):
+            if recv.kind == "ident" and name in ("lower", "upper", "casefold") and not args:
+                return Tmpl.lit(getattr(recv.name, name)())
             if recv.kind == "rawtoken" and name == "count":
                 return Sym("int", recv.src + ".count")
             raise Unsupported(
@@ -1702,6 +1816,13 @@ class Interp:
                 return True if self.choose(f"{q.split('.')[-1]}() of a pattern on {_describe(subj)} at {site}") else None
         if q in ("json.dumps",) and args:
             v = args[0]
+            if isinstance(v, AList):
+                out = Tmpl.lit("[")
+                for i_, x_ in enumerate(v.items):
+                    if i_:
+                        out = out + Tmpl.lit(", ")
+                    out = out + (Tmpl((Hole(x_, "json", site),)) if isinstance(x_, Sym) else self.render(x_, "repr", site))
+                return out + Tmpl.lit("]")
             if isinstance(v, Sym):
                 return Tmpl((Hole(v, "json", site),))
             if isinstance(v, Tmpl) and v.is_literal():
@@ -1744,7 +1865,15 @@ class Interp:
                 return v
             if v.is_literal():
                 return Tmpl.lit(repr(v.text()) if how == "repr" else ascii(v.text()))
-            raise Unsupported(f"repr() of a generated (non-literal) string at {site}")
+            # repr() of text that embeds opaque values: quotes + escaped literal pieces + each value's repr interior
+            parts = ["'"]
+            for p_ in v.parts:
+                if isinstance(p_, str):
+                    parts.append(repr(p_)[1:-1])
+                else:
+                    parts.append(Hole(p_.sym, p_.render + "|repr-inner", site))
+            parts.append("'")
+            return Tmpl(parts, v.nondet)
         if isinstance(v, Sym):
             if v.kind == "rawtoken":
                 return Tmpl((Hole(v, how, site),))
@@ -1882,6 +2011,12 @@ def _same(a, b) -> bool:
     if _isnum(a) and _isnum(b):
         return a == b
     return a is b
+
+
+def _same_value(a, b) -> bool:
+    if isinstance(a, AList) and isinstance(b, AList):
+        return a.pytype == b.pytype and len(a.items) == len(b.items) and all(_same_value(x, y) for x, y in zip(a.items, b.items))
+    return _same(a, b) or a is b
 
 
 def _member(x, items) -> bool:
